@@ -11,7 +11,9 @@ for d in sorted(os.listdir('/verif/seeded')):
     for chk, r in m.get('checks_run', {}).items():
         ks = sorted({k.split(' key=')[0].replace('kind=', '') for k in r.get('violation_kinds', [])})
         kinds.append("%s: %s" % (chk, ', '.join(ks[:3]) or ('exit %s' % r.get('exit'))))
-    rows.append("| `%s` | %s | %s | %s | %s |" % (d, m.get('property'), (m.get('summary') or '')[:150].replace('|', '/').replace('\n', ' '),
-                                             ' ; '.join(kinds), (m.get('history') or 'caught by the first version')[:160].replace('|', '/')))
-print("| seeded change | property | what it does | caught by (violation kinds) | note |\n|---|---|---|---|---|")
+    wave = m.get('wave', 'a')
+    default = 'caught by the first version' if wave == 'a' else 'caught by the check as it stood when round %s arrived' % wave
+    rows.append("| `%s` | %s | %s | %s | %s | %s |" % (d, m.get('property'), wave, (m.get('summary') or '')[:150].replace('|', '/').replace('\n', ' '),
+                                                  ' ; '.join(kinds), (m.get('history') or default)[:220].replace('|', '/')))
+print("| seeded change | property | round | what it does | caught by (violation kinds) | note |\n|---|---|---|---|---|---|")
 print("\n".join(rows))
